@@ -80,14 +80,17 @@ def supG (g : Defs) (k : Name) : Prog (Res V) :=
     | some v => .drop (.ret (.ok v))
     | none => storeP .sup k (supertypesOf g k)
 
-/-- the `for def in defs` body of `all_supertypes_of` -/
+/-- the `for def in defs` body of `all_supertypes_of`: `supertypes_of(def)` (a cache access) is only called for a
+def that was not yet in the result set (`if super_types.insert(def) { .. }`) -/
 def forBodyP (g : Defs) : List Name → List (List Name) → List Name → Prog (Res (List (List Name) × List Name))
   | [], st, acc => .ret (.ok (st, acc))
   | d :: ds, st, acc =>
-    (supG g d).bind fun r =>
-      match r with
-      | .ok nx => forBodyP g ds (if nx.isEmpty then st else nx :: st) (insertSet d acc)
-      | e => .ret e.cast
+    if d ∈ acc then forBodyP g ds st acc
+    else
+      (supG g d).bind fun r =>
+        match r with
+        | .ok nx => forBodyP g ds (if nx.isEmpty then st else nx :: st) (insertSet d acc)
+        | e => .ret e.cast
 
 /-- the `while` loop of `all_supertypes_of` -/
 def wlP (g : Defs) : Nat → List (List Name) → List Name → Prog (Res (List Name))
